@@ -273,6 +273,9 @@ func c18Quote(s string) string {
 var c18Cons = []*c18Con{
 	{"value", func(s string) string { return "//eval.value(" + c18Quote(s) + ")" }},
 	{"eval", func(s string) string { return "//eval.eval(" + c18Quote(s) + ")" }},
+	// the same two with the source handed over as a byte array (both accept string | bytes)
+	{"value-bytes", func(s string) string { return "//eval.value(<<" + c18Quote(s) + ">>)" }},
+	{"eval-bytes", func(s string) string { return "//eval.eval(<<" + c18Quote(s) + ">>)" }},
 	{"evaluator()", func(s string) string { return "//eval.evaluator(()).eval(" + c18Quote(s) + ")" }},
 	{"evaluator(stdlib:())", func(s string) string { return "//eval.evaluator((stdlib: ())).eval(" + c18Quote(s) + ")" }},
 	{"evaluator(stdlib:(eval))", func(s string) string {
@@ -335,7 +338,7 @@ func (e *c18Env) next(m *c18M, c *c18Con) (*c18M, bool) {
 	if m.escape != "" {
 		return &c18M{class: "beyond", escape: m.escape}, false
 	}
-	switch c.name {
+	switch strings.TrimSuffix(c.name, "-bytes") {
 	case "value":
 		// //eval.value is handed no library and no scope
 		return &c18M{class: "no-lib", escape: "value"}, c18Has(m.lib, "eval", "value")
